@@ -246,11 +246,28 @@ pub fn run_property(id: &'static str) -> ! {
     }
     let progs: Vec<&Prog> = picked.iter().map(|e| &e.prog).collect();
     let layouts = evalprog::evaluate_layouts(&progs, &format!("{id}-layouts")).unwrap_or_else(|e| machinery_failure(&e));
-    let second_ok = |x: &RunResult| x.ending == REnding::Return && x.lines == evalprog::SECOND_LINES;
     for l in &layouts {
       let e = picked[l.prog_index];
       let r = e.reference.as_ref().unwrap();
-      let order = if l.main_first { "program entry first" } else { "program entry second" };
+      // what the second entry has to do: its two lines, with the whole run of the program in between
+      // when its main calls the program's main
+      let second_expected = if l.second_calls_main {
+        let mut lines = vec![evalprog::SECOND_LINES[0].to_string()];
+        lines.extend(r.lines.iter().cloned());
+        if matches!(r.ending, refsem::Ending::Return) {
+          lines.push(evalprog::SECOND_LINES[1].to_string());
+        }
+        refsem::Outcome { lines, ending: r.ending.clone() }
+      } else {
+        refsem::Outcome { lines: evalprog::SECOND_LINES.iter().map(|s| s.to_string()).collect(), ending: refsem::Ending::Return }
+      };
+      let second_ok = |x: &RunResult| same_as_ref(&second_expected, x).is_none();
+      let order = match (l.main_first, l.second_calls_main) {
+        (true, false) => "program entry first",
+        (false, false) => "program entry second",
+        (true, true) => "program entry first, the second entry's main calls the program's main",
+        (false, true) => "program entry second, the second entry's main calls the program's main",
+      };
       let payload = |extra: Value| json!({"program": e.prog.text, "name": e.prog.name, "shape": e.prog.shape, "layout": {"module": "app.deep.Main", "second_entry_module": evalprog::SECOND_MODULE, "entry_order": order}, "detail": extra});
       let sig = |m: &str| format!("layout|{}|{}|{m}", e.prog.family, e.prog.shape);
       match &l.compile {
@@ -299,7 +316,7 @@ pub fn run_property(id: &'static str) -> ! {
             match &x.ending {
               REnding::Fault(k, m) => run.violation(&sig(&format!("{which}:fault:{k}")), &format!("{which}: {k}: {} for `{}` ({order})", m.chars().take(160).collect::<String>(), e.prog.name), payload(json!(null))),
               REnding::Hang => run.violation(&sig(&format!("{which}:hang")), &format!("{which} did not terminate for `{}` ({order})", e.prog.name), payload(json!(null))),
-              REnding::Trap(k) if which.starts_with("second") => run.violation(&sig(&format!("{which}:trap:{k}")), &format!("{which} ends in an engine-level fault ({k}) next to `{}` ({order})", e.prog.name), payload(json!(null))),
+              REnding::Trap(k) if which.starts_with("second") && !l.second_calls_main => run.violation(&sig(&format!("{which}:trap:{k}")), &format!("{which} ends in an engine-level fault ({k}) next to `{}` ({order})", e.prog.name), payload(json!(null))),
               _ => {}
             }
           }
